@@ -202,6 +202,8 @@ def run_unit(name, repo="/repo", keep=None, rlimit=None, canary=True):
             cres = fc.result() if fc else None
         res.cmd = " ".join(cmd).replace(mp, "<scratch>/%s.rs" % name)
         _digest_main(res, main, out, diags, raw)
+        if res.limit_hit:
+            _retry_limited(res, main, mp)
         if can and res.status != "undecided":
             _digest_canary(res, can, *cres[:3])
         _count_obligations(res, main)
@@ -246,10 +248,19 @@ def _digest_main(res, unit, out, diags, raw):
             continue
         spans = d.get("spans", [])
         fn_r = None
+        bodyless = set(f["id"] for f in unit.functions if not f["has_body"])
+        cands = []
         for sp in sorted(spans, key=lambda s: not s.get("is_primary")):
-            fn_r = _fn_region_of(unit, sp["byte_start"])
-            if fn_r:
+            r0 = _fn_region_of(unit, sp["byte_start"])
+            if r0:
+                cands.append(r0)
+        # a clause written on a trait declaration is attributed to the implementing function whose body failed it
+        for r0 in cands:
+            if r0.fn_id not in bodyless:
+                fn_r = r0
                 break
+        if fn_r is None and cands:
+            fn_r = cands[0]
         parts = []
         for sp in sorted(spans, key=lambda s: not s.get("is_primary")):
             lab = sp.get("label") or ""
@@ -280,6 +291,54 @@ def _digest_main(res, unit, out, diags, raw):
         res.status, res.undecided_reason = "undecided", limit_hit
     elif not vr.get("success", False):
         res.status, res.undecided_reason = "undecided", "verus reported failure without a diagnostic: %s" % raw[:500]
+
+
+def _retry_limited(res, unit, mp):
+    """A query hit the solver limit in the whole-file run (one Z3 process for all functions is less stable).
+    Re-run every function that got no verdict on its own, with a larger budget; merge definite verdicts."""
+    pending = [fn for fn, (ms, rl, ok) in res.fn_times.items() if not ok]
+    still = []
+    seen = set(f.ident for f in res.failures)
+    for fn in pending[:8]:
+        pat = fn.split("::", 1)[1] if "::" in fn else fn
+        cmd = ["verus", mp, "--output-json", "--time", "--multiple-errors", "12", "--error-format=json",
+               "--rlimit", "80", "--verify-root", "--verify-function", pat]
+        try:
+            p = subprocess.run(cmd, stdout=subprocess.PIPE, stderr=subprocess.PIPE, timeout=600, cwd=os.path.dirname(mp))
+        except subprocess.TimeoutExpired:
+            still.append(pat)
+            continue
+        diags = []
+        for ln in p.stderr.decode("utf-8", "replace").split("\n"):
+            ln = ln.strip()
+            if ln.startswith("{"):
+                try:
+                    diags.append(json.loads(ln))
+                except Exception:
+                    pass
+        try:
+            out = json.loads(p.stdout.decode("utf-8", "replace"))
+        except Exception:
+            still.append(pat)
+            continue
+        sub = UnitResult(res.name)
+        _digest_main(sub, unit, out, diags, "")
+        if sub.status == "undecided" or sub.limit_hit:
+            still.append(pat)
+        for f in sub.failures:
+            if f.ident not in seen:
+                seen.add(f.ident)
+                res.failures.append(f)
+    if res.failures:
+        res.status = "failures"
+    if still:
+        res.limit_hit = "solver limit also when verified alone with a larger budget: %s" % ", ".join(still)
+        if not res.failures:
+            res.status, res.undecided_reason = "undecided", res.limit_hit
+    else:
+        res.limit_hit = None
+        if not res.failures:
+            res.status, res.undecided_reason = "ok", None
 
 
 def _digest_canary(res, can, out, diags, raw):
